@@ -63,7 +63,7 @@ func (g *modelRig) verify(blame string) bool {
 }
 
 func models(r *vk.Run) {
-	n := r.Pick(60, 2000)
+	n := r.Pick(40, 3000)
 	drivers := []struct {
 		name string
 		f    func(g *modelRig, rng *vk.Rand, steps int)
